@@ -141,6 +141,64 @@ func (fr *frame) countMatches(c *ssa.CallCommon, name string) []string {
 	return out
 }
 
+// chanVarName: source name of the channel operand (parameter, captured variable, or a load of a captured variable).
+func chanVarName(v ssa.Value) string {
+	switch v := v.(type) {
+	case *ssa.Parameter:
+		return v.Name()
+	case *ssa.FreeVar:
+		return v.Name()
+	case *ssa.UnOp:
+		if fv, ok := v.X.(*ssa.FreeVar); ok {
+			return fv.Name()
+		}
+		if fa, ok := v.X.(*ssa.FieldAddr); ok {
+			st := derefType(fa.X.Type()).Underlying().(*types.Struct)
+			return st.Field(fa.Field).Name()
+		}
+	}
+	return ""
+}
+
+// countSend: ghost counters with pattern send:<name> watch sends on the channel variable <name>; the first leaf
+// of the sent value is recorded as argument 0.
+func (fr *frame) countSend(in *ssa.Send, h Heap) Heap {
+	x := fr.x
+	if x.con == nil {
+		return h
+	}
+	name := chanVarName(in.Chan)
+	// ordinal of this send among the function's sends on the same channel variable, in source order
+	ord := 0
+	for _, blk := range in.Parent().Blocks {
+		for _, other := range blk.Instrs {
+			if s, ok := other.(*ssa.Send); ok && chanVarName(s.Chan) == name && s.Pos() <= in.Pos() {
+				ord++
+			}
+		}
+	}
+	for _, cs := range x.con.Counts {
+		if name == "" || (cs[1] != "send:"+name && cs[1] != fmt.Sprintf("send:%s#%d", name, ord)) {
+			continue
+		}
+		if x.countHits == nil {
+			x.countHits = map[string]int{}
+		}
+		x.countHits[cs[0]]++
+		k := "$cnt:" + cs[0]
+		x.regKey(k, "Int")
+		h = h.set(k, plus(x.hget(h, k), "1"))
+		v := fr.get(in.X)
+		ls := leaves(in.X.Type())
+		for i := 0; i < len(v.ts) && i < 4; i++ {
+			ak := fmt.Sprintf("$arg:%s:%d", cs[0], i)
+			x.regKey(ak, "Int")
+			h = h.set(ak, asInt(v.ts[i], ls[i].Sort))
+		}
+	}
+	return h
+}
+
 // countCall bumps the ghost counters watching this callee and records the first leaf of each argument.
 func (fr *frame) countCall(c *ssa.CallCommon, name string, args []Val, atypes []types.Type, h Heap) Heap {
 	x := fr.x
@@ -397,9 +455,11 @@ func (fr *frame) applyContract(b *ssa.BasicBlock, site ssa.Instruction, con *Con
 		se := x.newSpecEnv(ci, env, h, h)
 		givens = append(givens, x.evalBool(se, clauseExpr(ci)))
 	}
+	ghost := map[string]Term{}
 	for _, c := range con.Ensures {
 		ci := x.eng.clauses[c]
 		se := x.newSpecEnv(ci, env, nh, h)
+		se.calleeGhost = ghost
 		x.sc.assertC(implies(and(reach, and(givens...)), x.evalBool(se, clauseExpr(ci))), "callee ensures "+shortCallee(name)+": "+c.Text)
 	}
 	return res, nh
